@@ -47,6 +47,7 @@ BAR = snp.Barrier()
 BAR.install()
 PRISTINE_CONST = snp.snap_constants()
 PRISTINE_MODS = snp.snap_modules()
+PRISTINE_PROC = None       # taken at the first use (after the harness has finished configuring the process)
 
 X, Y, Z = -4052051.7643, 4212836.2017, -2545106.0245
 V33 = [[1e-4, 2e-5, -1e-5], [2e-5, 4e-4, 3e-5], [-1e-5, 3e-5, 9e-4]]
@@ -215,6 +216,13 @@ ALPHABET = {
     'raises_k_val95': lambda: (gs.k_val95, [2.5]),
     'mga2020_to_mga94_p3': lambda: (gt.transform_mga2020_to_mga94, [55, 300000.0, 6200000.0, 10.0]),
     'mga94_to_mga2020_p3': lambda: (gt.transform_mga94_to_mga2020, [55, 300000.0, 6200000.0, 10.0]),
+    # --- what a call with non-finite coordinates leaves in recycled work memory; sets whose rotation uncertainties are zero
+    'conform7_nan_vcv': lambda: (gt.conform7, [float('nan'), 1.0, float('inf'), gc.gda94_to_gda2020, A(V33)]),
+    'conform7_apm_vcv': lambda: (gt.conform7, [X, Y, Z, gc.itrf2014_to_gda2020, A(V33)]),
+    'conform14_apm_refepoch_vcv': lambda: (gt.conform14, [X, Y, Z, datetime.date(2020, 1, 1), gc.atrf2014_to_gda2020, A(V33)]),
+    # --- calls that are DOCUMENTED to warn and still answer (ISG projection with another ellipsoid than ANS)
+    'geo2grid_isg_grs80': lambda: (gv.geo2grid, [-33.5, 151.2, 0, gc.grs80, gc.isg]),
+    'coord_tm_isg_geo': lambda: ((lambda c: c.geo()), [gco.CoordTM(561, 318743.2, 1291327.7, 10.0, 2.0, False, gc.isg)]),
     # --- array-valued observations (the formulas are elementwise; the arrays belong to the caller)
     'phase_refractivity_arr': lambda: (gsv.phase_refractivity, [0.85, A([20.0, 25.0]), A([1013.25, 990.0]), A([10.0, 12.0])]),
     'group_refractivity_arr': lambda: (gsv.group_refractivity, [0.85, A([20.0, 25.0]), A([1013.25, 990.0]), A([10.0, 12.0])]),
@@ -396,6 +404,9 @@ def prepare(tier, seed):
 
 def run_history(hist):
     """executes the calls of hist in order in this process; returns per-step observations"""
+    global PRISTINE_PROC
+    if PRISTINE_PROC is None:
+        PRISTINE_PROC = snp.snap_process()
     obs = []
     _LIVE.clear()
     for n in hist:
@@ -408,10 +419,11 @@ def run_history(hist):
         const_same = snp.snap_constants() == PRISTINE_CONST
         mods = snp.snap_modules()
         stale = [hn for (hn, hr, hc) in HELD[:-1] if snp.canon(hr) != hc]
+        pdiff = snp.diff_process(PRISTINE_PROC, snp.snap_process())
         if shared_changed():
             changed = changed or [0]
         obs.append({'call': n, 'res': res, 'args_changed': changed, 'writes': writes[:6], 'n_writes': len(writes),
-                    'const_same': const_same, 'mod_diff': snp.diff_modules(PRISTINE_MODS, mods), 'stale': stale,
+                    'const_same': const_same, 'mod_diff': snp.diff_modules(PRISTINE_MODS, mods), 'stale': stale, 'proc_diff': pdiff,
                     'state': hash((snp.snap_constants(), tuple(sorted(mods.items()))))})
     return obs
 
@@ -443,6 +455,10 @@ def check_obs(rec, hist, obs, one):
         bad = True
         rec.fail('the call modified an argument supplied by the caller', site='purity:args:' + n, observed=o['args_changed'],
                  case=one, coords=co)
+    if o.get('proc_diff'):
+        bad = True
+        rec.fail('the call changed process-wide interpreter state (%s)' % ', '.join(o['proc_diff']), site='purity:process-state:' + o['proc_diff'][0],
+                 observed=o['proc_diff'], case=one, coords=co)
     if o.get('stale'):
         bad = True
         rec.fail('a value returned by an earlier call (%s) was changed by a later call: results share storage' % o['stale'][0],
@@ -593,6 +609,11 @@ def gen_sched(tier, seed):
     for a, b in (('vcv_cart2local_p2', 'vcv_cart2local'), ('conform14_itrf08_vcv', 'add_date'), ('k_val95', 'conform7_vcv'),
                  ('conform14_user_alias', 'conform14_apm_vcv')):
         yield {'threads': [[a, a], [b]], 'bound': 1}
+    # a call documented to WARN next to calls of every traced module (a call that manipulates the process-wide warning filters
+    # while it runs turns the other thread's warning into an exception)
+    for a in ('relative_error', 'error_ellipse', 'conform7_vcv', 'coord_geo_tm_cart', 'vcv_cart2local', 'k_val95', 'add_date'):
+        for b in ('geo2grid_isg_grs80', 'coord_tm_isg_geo'):
+            yield {'threads': [[a], [b]], 'bound': 1}
     # two threads working on the SAME caller-owned object
     quick_objs = ('geo2d', 'tderived', 'vcv', 'obs', 'tm', 'parr')      # the NTv2 grid object: thorough tier here, and C17's own 'threads' sub-check
     for oname in sorted(SHARED):
@@ -625,6 +646,7 @@ def run_schedule_here(threads, files, prefix, opcode, full_snapshot):
     ref = references()
 
     def work():
+        proc0 = snp.snap_process()
         _LIVE.clear()
         for calls in threads:
             for n in calls:
@@ -657,6 +679,9 @@ def run_schedule_here(threads, files, prefix, opcode, full_snapshot):
             bad.append(('write-after', None))
         if shared_changed():
             bad.append(('shared-object-changed', shared_changed()))
+        pd = snp.diff_process(proc0, snp.snap_process())
+        if pd:
+            bad.append(('process-state-changed', pd))
         # full snapshot (3 ms): whenever the barrier saw a write, on the default schedule and on every 8th schedule
         if (writes or (full_snapshot and (not prefix or (sum(prefix) + len(prefix)) % 8 == 0))) \
                 and snp.snap_constants() != PRISTINE_CONST:
